@@ -1,1 +1,119 @@
-(* placeholder while the machine proofs are being written *)
+(* C03 — the grounding result is independent of the order in which sibling
+   goals are explored.  Only statements, closed by `exact`.
+   Subject: the abstract tabling / worklist machine of ModelTabling.v over a
+   ground normal program.  The real engine's cycle_root / buffer / sibling /
+   answer-propagation mechanics are NOT modelled; that they refine this machine
+   is tied only by sampled schedules (harness/props/C03.py). *)
+From Coq Require Import List Arith Bool QArith.
+From PL.C03 Require Import ModelTabling ProofsTabling.
+Import ListNotations.
+Local Close Scope Q_scope.
+Local Open Scope nat_scope.
+
+(* Any two schedules that terminate discover the same goals and the same
+   clause-instance edges (as sets): no bound on program, queries or schedules. *)
+Theorem C03_schedule_independent : forall (P : program) (Q : list atom) (s1 s2 : schedule),
+  terminated (run P s1 (init Q)) -> terminated (run P s2 (init Q)) ->
+  (forall a, In a (goals (run P s1 (init Q))) <-> In a (goals (run P s2 (init Q)))) /\
+  (forall c, In c (edges (run P s1 (init Q))) <-> In c (edges (run P s2 (init Q)))).
+Proof. exact schedule_independent. Qed.
+Print Assumptions C03_schedule_independent.
+
+(* What every terminating schedule computes: exactly the goals reachable from
+   the queries and exactly the clauses of the program whose head is reachable
+   (the relevant ground program); "discovered ⊆ least closed set" and
+   "empty worklist ⇒ closed" are the two halves of each equivalence. *)
+Theorem C03_result_is_relevant_subprogram : forall (P : program) (Q : list atom) (s : schedule),
+  terminated (run P s (init Q)) ->
+  (forall a, In a (goals (run P s (init Q))) <-> reach P Q a) /\
+  (forall c, In c (edges (run P s (init Q))) <-> (In c P /\ reach P Q (head c))).
+Proof. exact result_is_relevant_subprogram. Qed.
+Print Assumptions C03_result_is_relevant_subprogram.
+
+(* at termination every discovered goal has been completed *)
+Theorem C03_terminated_all_completed : forall (P : program) (Q : list atom) (s : schedule),
+  terminated (run P s (init Q)) ->
+  forall a, In a (goals (run P s (init Q))) -> In a (completed (run P s (init Q))).
+Proof.
+  exact (fun P Q s T => terminated_all_completed P Q _ (inv_run P Q s _ (inv_init P Q)) T).
+Qed.
+Print Assumptions C03_terminated_all_completed.
+
+(* Hence the same ground graph meaning: the three-valued well-founded value of
+   every atom in every world, for every universe/iteration bound ... *)
+Theorem C03_same_values : forall (P : program) (Q : list atom) (s1 s2 : schedule),
+  terminated (run P s1 (init Q)) -> terminated (run P s2 (init Q)) ->
+  forall U n m (w : interp) (a : atom),
+    wf_value U n m (edges (run P s1 (init Q))) w a = wf_value U n m (edges (run P s2 (init Q))) w a.
+Proof. exact same_values. Qed.
+Print Assumptions C03_same_values.
+
+(* ... and the same probability of every query over every weighted set of worlds. *)
+Theorem C03_same_probabilities : forall (P : program) (Q : list atom) (s1 s2 : schedule),
+  terminated (run P s1 (init Q)) -> terminated (run P s2 (init Q)) ->
+  forall U n m (W : list (interp * QArith_base.Q)) (q : atom),
+    prob U n m (edges (run P s1 (init Q))) W q = prob U n m (edges (run P s2 (init Q))) W q.
+Proof. exact same_probabilities. Qed.
+Print Assumptions C03_same_probabilities.
+
+(* Errors: whether the discovered graph has a cycle through negation (the
+   must-reject class of C02) is a property of program + queries, not of the schedule. *)
+Theorem C03_must_reject_is_program_property : forall (P : program) (Q : list atom) (s : schedule),
+  terminated (run P s (init Q)) ->
+  (has_neg_cycle (in_list (edges (run P s (init Q)))) <-> has_neg_cycle (relevant P Q)).
+Proof. exact must_reject_is_program_property. Qed.
+Print Assumptions C03_must_reject_is_program_property.
+
+Theorem C03_error_schedule_free : forall (P : program) (Q : list atom) (s1 s2 : schedule),
+  terminated (run P s1 (init Q)) -> terminated (run P s2 (init Q)) ->
+  (has_neg_cycle (in_list (edges (run P s1 (init Q)))) <-> has_neg_cycle (in_list (edges (run P s2 (init Q))))).
+Proof. exact error_schedule_free. Qed.
+Print Assumptions C03_error_schedule_free.
+
+(* the machine never blocks: whatever number the schedule supplies, a pending item is consumed *)
+Theorem C03_machine_never_blocks : forall (P : program) (k : nat) (st : state), wl st <> [] ->
+  exists x rest, choose k (wl st) = Some (x, rest) /\ step P k st = process P x st rest.
+Proof. exact step_progress. Qed.
+Print Assumptions C03_machine_never_blocks.
+
+(* Not proved (stated here so that the gap stays visible):
+     C03_termination_partial : forall P Q, exists N, forall s, N <= length s -> terminated (run P s (init Q))
+   every theorem above is conditional on termination of the two runs; the
+   Examples below show the hypotheses are satisfiable with different schedules. *)
+
+(* ---- non-vacuity: recursion (1 <-> 2), negation (0 :- 1, not 4), an irrelevant clause (5) *)
+Definition exP : program :=
+  [ mkClause 0 [Pos 1; Neg 4]; mkClause 1 [Pos 2]; mkClause 1 [Pos 3]; mkClause 2 [Pos 1];
+    mkClause 4 [Pos 3; Pos 2]; mkClause 5 [Pos 0] ].
+Definition exQ : list atom := [0].
+Definition ex_s1 : schedule := repeat 0 40.
+Definition ex_s2 : schedule :=
+  [3;1;4;1;5;9;2;6;5;3;5;8;9;7;9;3;2;3;8;4;6;2;6;4;3;3;8;3;2;7;9;5;0;2;8;8;4;1;9;7].
+
+Example C03_ex_both_terminate :
+  terminatedb (run exP ex_s1 (init exQ)) = true /\ terminatedb (run exP ex_s2 (init exQ)) = true.
+Proof. vm_compute. split; reflexivity. Qed.
+
+(* the two schedules really explore in different orders ... *)
+Example C03_ex_different_orders :
+  map head (edges (run exP ex_s1 (init exQ))) = [1; 1; 2; 4; 0] /\
+  map head (edges (run exP ex_s2 (init exQ))) = [2; 4; 1; 1; 0] /\
+  goals (run exP ex_s1 (init exQ)) = [2; 3; 4; 1; 0] /\
+  goals (run exP ex_s2 (init exQ)) = [3; 2; 4; 1; 0].
+Proof. vm_compute. repeat split; reflexivity. Qed.
+
+(* ... a too short schedule does not terminate (the hypothesis is not trivially true) ... *)
+Example C03_ex_short_schedule : terminatedb (run exP (repeat 0 10) (init exQ)) = false.
+Proof. vm_compute. reflexivity. Qed.
+
+(* ... and the meaning agrees: in the world where fact 3 holds, 1,2,3,4 are true and 0 is false *)
+Example C03_ex_values :
+  map (wf_value [0;1;2;3;4;5] 6 6 (edges (run exP ex_s2 (init exQ))) (fun a => Nat.eqb a 3)) [0;1;2;3;4]
+  = [Some false; Some true; Some true; Some true; Some true].
+Proof. vm_compute. reflexivity. Qed.
+
+(* a loop through negation is three-valued (undefined) and is a negative cycle *)
+Example C03_ex_negative_loop :
+  map (wf_value [0;1] 4 4 (edges (run [mkClause 0 [Neg 1]; mkClause 1 [Neg 0]] ex_s1 (init [0]))) (fun _ => false)) [0;1]
+  = [None; None].
+Proof. vm_compute. reflexivity. Qed.
